@@ -4,6 +4,7 @@ CONSTANTS
   BaseSet = "families"
   MaxMut = 1
   MaxBoth = 1
+  Star = FALSE
   HashBits = 32
 INVARIANT Refines
 INVARIANT Iff
